@@ -23,11 +23,14 @@ CHECKS = {
             'tree_replace_nones outputs for every dumped tree, HistGen history-built containers and random trees are compared by TLC with the reference.',
             'As C01. Partially ordered key types (frozenset) are outside the universe; key universe = int, str, float(x.5), an ordered user class, an unorderable user class.', '5 C02'),
     'C03': ('model_checking',
-            'all eight traversal entry points + reductions on TLC-enumerated trees (incl. single malformed custom nodes, depth limit by offset) judged by TLC against PyTreeSem',
+            'all eight traversal entry points + reductions on TLC-enumerated trees (incl. single malformed custom nodes, depth limit by offset) judged by TLC against PyTreeSem; '
+            'TLC-enumerated programs stepping tree_iter while the heap / modes / registry change, every call judged by TLC against IterSem',
             'Every entry point is compared with layer D (hence with every other one): leaves by identity, full node arrays, paths, typed '
             'accessors, hash/repr of the returned treespecs, tree_is_leaf / all_leaves, the six reductions against Python folds; error '
             'classes for single-fault trees (TreeGen alphabet F places one malformed custom node at every position); RecursionError at exactly '
-            'MAX_RECURSION_DEPTH+1 for 9 node kinds, bound to the model (MaxDepth=4) by offset.',
+            'MAX_RECURSION_DEPTH+1 for 9 node kinds, bound to the model (MaxDepth=4) by offset.  The lazy entry point is also modelled as a '
+            'stateful object over a mutable heap (IterSem / IterM: FreshAgrees, SnapshotDelivered proved by TLC on all programs of <= 4 calls) and '
+            'every generated / simulated / random program is replayed; tree_leaves and undisturbed iterators must match (violation), disturbed ones are reported as model drift.',
             'As C01. Error parity is claimed for single-fault trees only (the iterator validates entries before descending, the flattener after).', '5 C03'),
     'C04': ('model_checking',
             'TLC laws on paths (Access(tree,path_i)=leaf_i, prefix-free) + real accessors applied/split/codified on TLC-enumerated trees, typing judged against the A4 table in TLA+',
